@@ -393,6 +393,61 @@ def c13e_applied(b1: bool, b2: bool, bd: bool, st: bool) -> bool:
     return fin(ok & (fields[0] == want_a) & (fields[1] == want_b) & applied)
 
 
+def c13e_nested_state(bo: bool, bn: bool, bi: bool) -> bool:
+    """
+    post: _
+    """
+    # pipeline state across a nested pipeline: the nested items see the state set before the nest item, and what
+    # they set (also when they overwrite a key) is what the items after the nest item see
+    VALUES.clear()
+    VALUES.update({"o": bo, "n": bn, "i": bi})
+    d = {
+        "name": "p",
+        "priority": 1,
+        "transformations": [
+            {"id": "s0", "type": "set_state", "key": "k", "val": "outer", "rule_conditions": [{"type": "stub", "name": "o"}]},
+            {"id": "n", "type": "nest", "rule_conditions": [{"type": "stub", "name": "n"}], "items": [
+                {"id": "seen", "type": "set_custom_attribute", "attribute": "a_seen", "value": "1", "rule_conditions": [{"type": "processing_state", "key": "k", "val": "outer"}]},
+                {"id": "s1", "type": "set_state", "key": "k", "val": "inner", "rule_conditions": [{"type": "stub", "name": "i"}]},
+                {"id": "s2", "type": "set_state", "key": "k2", "val": "x"},
+            ]},
+            {"id": "g1", "type": "set_custom_attribute", "attribute": "a_in", "value": "1", "rule_conditions": [{"type": "processing_state", "key": "k", "val": "inner"}]},
+            {"id": "g2", "type": "set_custom_attribute", "attribute": "a_out", "value": "1", "rule_conditions": [{"type": "processing_state", "key": "k", "val": "outer"}]},
+            {"id": "g3", "type": "set_custom_attribute", "attribute": "a_k2", "value": "1", "rule_conditions": [{"type": "processing_state", "key": "k2", "val": "x"}]},
+        ],
+    }
+    p = ProcessingPipeline.from_dict(d)
+    rule = SigmaRule.from_dict({"title": "t", "logsource": {"category": "c"}, "detection": {"sel": {"fA": "v"}, "condition": "sel"}})
+    p.apply(rule)
+    ca = rule.custom_attributes
+    inner = bn & bi
+    ok = True
+    if not is_open("c13-nested-pipeline-does-not-see-outer-state"):
+        ok = ("a_seen" in ca) == (bn & bo)
+    ok = ok & (("a_in" in ca) == inner)
+    ok = ok & (("a_out" in ca) == (bo & (inner ^ True)))
+    ok = ok & (("a_k2" in ca) == bn)
+    return fin(ok)
+
+
+def c13_strict_nested_sees_outer_state() -> bool:
+    """Witness form for known finding c13-nested-pipeline-does-not-see-outer-state."""
+    VALUES.clear()
+    VALUES.update({"o": True, "n": True, "i": False})
+    d = {"name": "p", "priority": 1, "transformations": [
+        {"id": "s0", "type": "set_state", "key": "k", "val": "outer"},
+        {"id": "m0", "type": "field_name_suffix", "suffix": "_x"},
+        {"id": "n", "type": "nest", "items": [
+            {"id": "seen", "type": "set_custom_attribute", "attribute": "a_seen", "value": "1", "rule_conditions": [{"type": "processing_state", "key": "k", "val": "outer"}]},
+            {"id": "seen2", "type": "set_custom_attribute", "attribute": "a_seen2", "value": "1", "rule_conditions": [{"type": "processing_item_applied", "processing_item_id": "m0"}]},
+        ]},
+    ]}
+    p = ProcessingPipeline.from_dict(d)
+    rule = SigmaRule.from_dict({"title": "t", "logsource": {"category": "c"}, "detection": {"sel": {"fA": "v"}, "condition": "sel"}})
+    p.apply(rule)
+    return "a_seen" in rule.custom_attributes and "a_seen2" in rule.custom_attributes
+
+
 # applied-so-far bookkeeping for field names across the kinds of field mappings: an item gated by the field name
 # condition processing_item_applied applies to exactly the fields the earlier mapping produced
 MAPKINDS = [
@@ -488,6 +543,7 @@ OBLIGATIONS = [
     Ob("c13d_rule_conds", {}, 600),
     Ob("c13e_applied", {}, 300),
     Ob("c13e_applied_mapping", {}, 300),
+    Ob("c13e_nested_state", {}, 300),
     Ob("c13e_reset", {}, 120),
 ]
 
